@@ -30,7 +30,7 @@ RULE = (
     "programs of 8 empty `==`/`in`/`[k]` sites whose observed values contain sets/frozensets/dicts with str/bytes/int/tuple/frozenset/Enum/class/mixed, non-orderable and partially "
     "ordered elements (depth <= 3); each program in two construction variants (literal displays vs set([...shuffled...]) / frozenset([...]) / dict([...]) with the same dict order); "
     "every program runs in one fresh interpreter per configuration: PYTHONHASHSEED in {0,1,2,3,7,42} (thorough: 12 seeds) x formatter in {black, black missing} plus "
-    "format-command black / cat on a subset. case = (program, configuration); non-trivial = the value contains a set/frozenset with >= 2 elements or a dict with >= 2 keys; "
+    "format-command black / cat on a subset; every second program starts with a test whose repr raises inside code generation. case = (site, configuration); non-trivial = the value contains a set/frozenset with >= 2 elements or a dict with >= 2 keys; "
     "distinct = (value shape signature, configuration)."
 )
 ASSUMPTIONS = [
@@ -165,7 +165,8 @@ def run_shard(args):
             if exec_exc or bad:
                 violations.append({"kind": "value-wrong-in-this-configuration", "detail": {"config": cfg, "program": key, "events": bad[:4], "exec": exec_exc}, "witness": {"files": files, "config": cfg}, "finding": None})
             results[key] = {"args": args_new, "asts": [ast.dump(ast.parse(a, mode="eval")) if a is not None else None for a in args_new]}
-    return {"evaluations": counters["programs_run"], "signatures": [], "samples": [], "violations": violations, "counters": counters, "inconclusive": [], "extra": {}, "results": results, "config": cfg}
+    # a case = one site of one program in one configuration
+    return {"evaluations": counters["sites_created"], "signatures": [], "samples": [], "violations": violations, "counters": counters, "inconclusive": [], "extra": {}, "results": results, "config": cfg}
 
 
 # ---------------------------------------------------------------------------------------
